@@ -508,7 +508,7 @@ behaviour = st.one_of(
 setter_vals = st.lists(val_spec, max_size=3)
 listener_b = st.fixed_dictionaries({'set': setter_vals, 'then': st.one_of(st.none(), st.none(), behaviour)})
 
-FORMULAS = ['HF(v_x,B2,C3:D4)+SUM(1,2)', 'HF()', 'v_x', 'B2', 'C3:D4', 'IFERROR(HF(1),2)', 'SUM(HF(1),B2)', 'IF(v_x,HF(2),B2)', '{HF(1),v_x}', 'HF(HF(v_x))&"a"', '-HF(1)', 'HF(1)=B2', 'ISERROR(HF(B2))',
+FORMULAS = ['v_call', 'v_call+HF(1)', 'IF(TRUE,v_fn,v_call)', 'HF(v_call)&v_x', 'WEEKDAY("no date")+HF()', 'HF(v_x,B2,C3:D4)+SUM(1,2)', 'HF()', 'v_x', 'B2', 'C3:D4', 'IFERROR(HF(1),2)', 'SUM(HF(1),B2)', 'IF(v_x,HF(2),B2)', '{HF(1),v_x}', 'HF(HF(v_x))&"a"', '-HF(1)', 'HF(1)=B2', 'ISERROR(HF(B2))',
             'CONCATENATE(v_x,B2,HF(3))', 'MAX(C3:D4)', 'TEXTJOIN(",",TRUE,C3:D4,v_x)', 'INDEX(C3:D4,HF(1))', 'ERROR.TYPE(HF(1))', 'HF(1)+', 'SUM(']
 
 fault_case = st.fixed_dictionaries({
@@ -602,8 +602,17 @@ def check_fault(case):
                     v = act(lb['then'], P)
                     setter(v)
             P.on(kind, listener)
+    class SelfReturning(object):
+        # a host object that is callable and answers with itself (a mock): as a variable's value it is a value like any other
+        def __call__(self, *a, **k):
+            return self
+    P.set_variable('v_call', SelfReturning())
+    P.set_variable('v_fn', lambda *a: (lambda *b: 1))
     buf = io.StringIO()
-    with contextlib.redirect_stderr(buf):
+    import warnings
+    with contextlib.redirect_stderr(buf), warnings.catch_warnings():
+        if len(case['formula']) % 3 == 0:
+            warnings.simplefilter('error')        # a host process that turns warnings into errors (python -W error, pytest's filterwarnings = error)
         guarded_parse(P, case['formula'], 64, what='host behaviour %r' % (case['fn'],))
 
 
